@@ -20,6 +20,8 @@ BUDGET = {
     "intel": (120, 1200),
     "gw1n": (300, 3000),
     "gwosc": (80, 600),
+    "gw5a": (24, 300),
+    "trion": (150, 1500),
 }
 
 
@@ -44,6 +46,8 @@ def corpus_entries():
         for fn in sorted(os.listdir(CORPUS)):
             if fn.endswith(".json"):
                 j = json.load(open(os.path.join(CORPUS, fn)))
+                if "case" not in j:
+                    continue                      # tables.pinned.json
                 j["case"] = norm_case(j["case"])
                 j["file"] = fn
                 out.append(j)
@@ -98,6 +102,9 @@ def tally(ctx, recs, label="random"):
             p["compared"] += 1
         for v in r["viol"]:
             dis.append({"kind": "monitor", "what": v, "case": c, "real": r.get("real")})
+        if fam in ("gw5a", "trion"):
+            p["compared"] -= 1 if not (r["region"] or r["borderline"] or r.get("out_of_domain")) else 0
+            ctx.cov.count("oracle-only family (no Lean model):" + fam)
         if r["dis"]:
             dis.append({"kind": "correspondence", "what": r["dis"], "case": c, "real": r.get("real"), "model": r.get("model")})
     for key, p in sorted(per.items()):
@@ -136,11 +143,17 @@ def correspond(ctx):
                 "phase/margin) run through the real compute_config+do_finalize, the Lean model and the exact oracle; "
                 "non-trivial = the real code returned a configuration (refusals counted separately)")
     t0 = time.time()
+    # (D) the declared device limits of the tree under test against the pinned reference tables
+    tdiff = L.table_diffs()
+    for t in tdiff[:20]:
+        ctx.log("declared range changed: " + t)
     cor = corpus_cases()
     cases = gen_cases(ctx)
     recs_c = L.run_cases(cor, procs=1) if cor else []
     recs = L.run_cases(cases)
-    dis = tally(ctx, recs_c, "corpus") + tally(ctx, recs)
+    dis = [{"kind": "tables", "what": "declared device range differs from the pinned reference (re-pin with C20_REPIN=1 "
+            "after review): " + t} for t in tdiff[:20]]
+    dis += tally(ctx, recs_c, "corpus") + tally(ctx, recs)
     dis += self_test(ctx, recs)
     ctx.cov.samples += [{"case": r["case"], "status": r["status"]} for r in recs[:6]]
     ctx.log("correspond: %d cases in %.1fs, %d disagreements/monitor hits" % (len(cor) + len(cases), time.time() - t0, len(dis)))
@@ -176,14 +189,37 @@ def probe_gw1n_same_pin():
     except Exception as e:
         return False, "refused: %r" % e
     driven = set()
-    for sp in g.get_fragment().specials:
+    for sp in L.frag_of(g).specials:
         if isinstance(sp, Instance) and sp.of in ("rPLL", "PLLVR"):
             driven = {id(it.expr) for it in sp.items if isinstance(it, Instance.Output)}
     undriven = [i for i, (clk, _, _, _) in g.clkouts.items() if id(clk) not in driven]
     return bool(undriven), "27 MHz in, two 108 MHz outputs: clock(s) %s not connected to any PLL pin" % undriven
 
 
-DIRECT_PROBES = {"C20-gw5a-odiv-unchecked": probe_gw5a_odiv, "C20-gw1n-same-pin-overwrite": probe_gw1n_same_pin}
+def probe_ecp5_idempotent():
+    """ECP5PLL.compute_config stores the spare feedback output in self.clkouts: a second call is refused."""
+    from migen import Signal
+    from litex.soc.cores.clock.lattice_ecp5 import ECP5PLL
+    e = ECP5PLL()
+    e.register_clkin(Signal(), 25e6)
+    e.create_clkout(L.mk_cd(0), 60e6, margin=1e-2, with_reset=False)
+    first = e.compute_config()
+    try:
+        second = e.compute_config()
+    except ValueError as ex:
+        return True, "25 MHz in, 60 MHz out: first compute_config ok (clkfb=%s), second raises %r" % (first["clkfb"], ex)
+    return False, "second call returned clkfb=%s" % second["clkfb"]
+
+
+def probe_trion_fpll():
+    c = {"fam": "trion", "clkin": 16e6, "outs": [(16e6, 0)], "fb": 0, "exact": True}
+    r = L.run_cases([c], procs=1)[0]
+    return r.get("region") == "C20-trion-fpll-max-unchecked", "16 MHz in, 16 MHz feedback output: status=%s region=%s %s" % (
+        r["status"], r.get("region"), r["viol"])
+
+
+DIRECT_PROBES = {"C20-ecp5-compute-config-not-idempotent": probe_ecp5_idempotent,
+                 "C20-trion-fpll-max-unchecked": probe_trion_fpll,"C20-gw5a-odiv-unchecked": probe_gw5a_odiv, "C20-gw1n-same-pin-overwrite": probe_gw1n_same_pin}
 
 
 def probes(ctx):
